@@ -14,7 +14,7 @@ def run(ctx):
                            "created (negative controls: lock kept on failure, missing bucket dereferenced). Every history is replayed on real files damaged through the "
                            "bbolt API with watchdog + recover; after each call the lock is probed with bbolt.Open(Timeout) and the path with os.Stat.")
         ctx.assumptions += ["damage is applied through the bbolt API (structurally valid bbolt files), as the property states"]
-        steps = 5 if thorough else 4
+        steps = 6 if thorough else 4
         ctx.design("MC_Store", ctx.cfg_variant("MC_Store.cfg", dict(MaxSteps=steps + 1)), label="store")
         ctx.negative_control("MC_Store", ctx.cfg_variant("MC_Store.cfg", dict(KeepLockOnFailure="TRUE")), label="neg:KeepLockOnFailure")
         ctx.negative_control("MC_Store", ctx.cfg_variant("MC_Store.cfg", dict(NoBucketCheck="TRUE")), label="neg:NoBucketCheck")
